@@ -4,11 +4,28 @@ TECHNIQUE = "CBMC bounded symbolic execution of http.c's URI parser/joiner/sette
 UNITS = ["http.c", "evutil.c"]
 FUNCTIONS = ["evhttp_uri_parse_with_flags", "parse_authority", "end_of_authority", "end_of_path", "scheme_ok", "userinfo_ok",
              "regname_ok", "parse_port", "bracket_addr_ok", "path_matches_noscheme", "evhttp_uri_join", "evhttp_uri_set_*", "evhttp_uri_free"]
-BOUNDS = "work in progress"
-OUT = "work in progress"
-TEXT = "work in progress"
-NOTE = ""
-ASSUMPTIONS = []
+BOUNDS = ("quick: RFC-components check on any string <= 6 bytes and '//'+<=5; parse-join-parse on any string <= 4, '//'+<=4, '//unix:'+<=3; "
+          "setters with component strings of 1-3 bytes and ports from small ranges incl. 65534..65537. thorough: 8 / '//'+7; round trips 6 / '//'+6 / '//unix:'+5 / "
+          "'//u@unix:'+3 / '//['+4; larger setter shapes incl. IP-literals under HOST_STRIP_BRACKETS. Every byte symbolic (0x01-0xff), all 8 combinations of "
+          "NONCONFORMANT|HOST_STRIP_BRACKETS|UNIX_SOCKET symbolic unless the description names one")
+OUT = ("strings longer than the bounds; the syntax of IPv6 addresses inside brackets (evutil_inet_pton is cut and replaced by an oracle that gives one verdict per run; C40 "
+       "is the property about that syntax); buffer.c (the evbuffer used by evhttp_uri_join is the contract model established by C12); allocation failure; "
+       "a unix socket set on a URI whose flags lack EVHTTP_URI_UNIX_SOCKET (join writes it, but 'parse with the same flags' cannot read the extension back); "
+       "changing the flags between setters; evhttp_uri_parse_authority (CONNECT targets) is only covered through the shared parse_authority")
+TEXT = ("split_*: for every accepted string the string is a valid URI-reference per RFC 3986 (plus the two documented extensions) and scheme, userinfo, host, "
+        "unix socket, port, path, query, fragment are exactly the components of the reference split (ref/rfc3986_ref.h, appendix B + section 3 ABNF); for every refused "
+        "string the reference says invalid or port > 65535 (completeness). rt_* / unix*: evhttp_uri_join of a parsed URI succeeds and the result parses with the same "
+        "flags into identical components; evhttp_uri_free releases everything. set_*: after the setters accepted a set of components, the getters return them, "
+        "and evhttp_uri_join either refuses or produces a string that parses (same flags) into exactly those components; a refusing setter leaves the URI unchanged.")
+NOTE = ("FINDINGS (all reproduced natively, fixed in /repo): (1) UNIX_SOCKET URIs lost path/query/fragment -- 'http://unix:/run/control.sock:/controller' parsed with "
+        "path '/run/control.sock' (fixes/C28-unixsocket-path); (2) IPvFuture grammar: '[v8.]' accepted, '[V1.o]' refused (fixes/C28-ipvfuture-grammar); (3) setters + join "
+        "wrote URIs that parse into different components: port > 65535, path '//x' or 'a:b' without authority/scheme, userinfo/port without host, unix socket with ':' / '@' "
+        "/ relative path / host (fixes/C28-join-roundtrip). The obligations unix, split_auth, set_noauth, set_qf, set_nohost, set_bigport, set_unix fail on the "
+        "tree before those commits. A path that was never set (NULL) compares equal to the parsed empty path. Port 65535 is the largest accepted (implementation limit, "
+        "RFC 3986 has *DIGIT). Trusted: cbmc, env/http_fmt.h, env/http_stralloc.h, env/evbuf_contract*.h, ref/rfc3986_ref.h, the IPv6 oracle.")
+ASSUMPTIONS = ["allocation does not fail", "evbuffer API behaves as documented (contract model, property C12)",
+               "evutil_inet_pton(AF_INET6) is a deterministic function of its text that accepts only texts over HEXDIG ':' '.' of length >= 2 (property C40)",
+               "input strings are NUL-terminated and within the stated bounds"]
 DESIGN_REF = "DESIGN.md §5 C28"
 
 def parse_ob(name, n, prefix="", flags=None, extra=(), timeout=900, mem=6, desc="", solver="cadical"):
